@@ -41,6 +41,12 @@ structure RawFrag where
   ids : Option (List Nat)
   deriving DecidableEq, Repr
 
+/-- the ids a fragment already carries -/
+def RawFrag.have (f : RawFrag) : List Nat :=
+  match f.ids with
+  | none => []
+  | some l => l
+
 /-- one iteration of the loop of `assign_row_ids`: the new `next_row_id` and the fragment's row id sequence;
     `none` = `Error::Internal` ("Fragment has more row IDs than physical rows") -/
 def assignOne (next : Nat) (f : RawFrag) : Option (Nat × List Nat) :=
